@@ -320,7 +320,9 @@ def main():
         Dl('enf_flat_metrics', ne_chain(b, 'p.DistanceMetric', cs, 'IndexVectorFlatParameters.Validate'))
         m = need(r'p\.DistanceMetric\s*==\s*DistanceHaversine\s*&&\s*p\.VectorSize\s*!=\s*(\d+)', b, 'flat haversine size')
         Dz('enf_flat_haversine_size', m.group(1))
-        Db('enf_flat_validates_quantizer', re.search(r'if\s+p\.Quantizer\s*!=\s*nil\s*\{\s*return\s+p\.Quantizer\.Validate\(\)', b) is not None)
+        qfor = re.search(r'if\s+p\.Quantizer\s*!=\s*nil\s*\{\s*return\s+p\.Quantizer\.ValidateFor\(\s*p\.VectorSize\s*,\s*p\.DistanceMetric\s*\)', b) is not None
+        Db('enf_flat_validates_quantizer', qfor or re.search(r'if\s+p\.Quantizer\s*!=\s*nil\s*\{\s*return\s+p\.Quantizer\.Validate\(\)', b) is not None)
+        Db('enf_flat_quantizer_for_index', qfor)
         b = func_body(idx, 'Validate', 'IndexVectorVamanaParameters')
         rng('enf_vector_size', b, 'p.VectorSize', 'IndexVectorVamanaParameters.Validate')
         Dl('enf_metrics', ne_chain(b, 'p.DistanceMetric', cs, 'IndexVectorVamanaParameters.Validate'))
@@ -328,11 +330,21 @@ def main():
         Dz('enf_haversine_size', m.group(1))
         rng('enf_index_search_size', b, 'p.SearchSize', 'IndexVectorVamanaParameters.Validate')
         rng('enf_degree', b, 'p.DegreeBound', 'IndexVectorVamanaParameters.Validate')
-        a_lo, a_hi = range_cmp(b, 'p.Alpha', 'IndexVectorVamanaParameters.Validate')
+        # two shapes: `p.Alpha < lo || p.Alpha > hi` (NaN passes: every comparison is false) or the
+        # NaN-rejecting `!(p.Alpha >= lo && p.Alpha <= hi)`
+        m = re.search(r'!\(\s*p\.Alpha\s*>=\s*([0-9.]+)\s*&&\s*p\.Alpha\s*<=\s*([0-9.]+)\s*\)\s*\{', b)
+        if m:
+            a_lo, a_hi = m.group(1), m.group(2)
+            Db('enf_alpha_rejects_nan', True)
+        else:
+            a_lo, a_hi = range_cmp(b, 'p.Alpha', 'IndexVectorVamanaParameters.Validate')
+            Db('enf_alpha_rejects_nan', False)
         # Alpha is a float32: the untyped constants are converted to float32 by the compiler
         need(r'Alpha\s+float32', idx, 'IndexVectorVamanaParameters.Alpha is float32')
         D('enf_alpha_min_f32', str(f32_bits(a_lo)), 'N'); D('enf_alpha_max_f32', str(f32_bits(a_hi)), 'N')
-        Db('enf_vamana_validates_quantizer', re.search(r'if\s+p\.Quantizer\s*!=\s*nil\s*\{\s*return\s+p\.Quantizer\.Validate\(\)', b) is not None)
+        qfor = re.search(r'if\s+p\.Quantizer\s*!=\s*nil\s*\{\s*return\s+p\.Quantizer\.ValidateFor\(\s*p\.VectorSize\s*,\s*p\.DistanceMetric\s*\)', b) is not None
+        Db('enf_vamana_validates_quantizer', qfor or re.search(r'if\s+p\.Quantizer\s*!=\s*nil\s*\{\s*return\s+p\.Quantizer\.Validate\(\)', b) is not None)
+        Db('enf_vamana_quantizer_for_index', qfor)
         b = func_body(idx, 'Validate', 'IndexTextParameters')
         Dl('enf_analysers', ne_chain(b, 'p.Analyser', cs, 'IndexTextParameters.Validate'))
 
@@ -347,7 +359,18 @@ def main():
         m = need(r'p\.NumSubVectors\s*<\s*(\d+)\s*\{', b, 'ProductQuantizerParameters.Validate: NumSubVectors minimum')
         Dz('enf_pq_subvectors_min', m.group(1))
         rng('enf_pq_trigger', b, 'p.TriggerThreshold', 'ProductQuantizerParameters.Validate')
-        Db('enf_pq_subvectors_divide_size', re.search(r'%\s*\w*\.?NumSubVectors', idx + qua) is not None)
+        # Quantizer.ValidateFor(vectorSize, distanceMetric): which product quantizers are refused for an index
+        if re.search(r'func\s+\(\s*q\s+Quantizer\s*\)\s*ValidateFor\s*\(', qua):
+            vf = func_body(qua, 'ValidateFor', 'Quantizer')
+            need(r'if\s+err\s*:=\s*q\.Validate\(\)\s*;\s*err\s*!=\s*nil\s*\{\s*return\s+err', vf, 'Quantizer.ValidateFor: calls q.Validate() first')
+            m = need(r'if\s+q\.Type\s*!=\s*QuantizerProduct((?:\s*\|\|\s*distanceMetric\s*==\s*\w+)*)\s*\{\s*return\s+nil', vf, 'Quantizer.ValidateFor: early return for non-product quantizers')
+            Dl('enf_pq_exempt_metrics', [resolve(x, cs, 'ValidateFor exempt metric') for x in re.findall(r'distanceMetric\s*==\s*(\w+)', m.group(1))])
+            Dl('enf_pq_metrics', ne_chain(vf, 'distanceMetric', cs, 'Quantizer.ValidateFor'))
+            Db('enf_pq_subvectors_divide_size', re.search(r'int\(vectorSize\)\s*%\s*q\.Product\.NumSubVectors\s*!=\s*0\s*\{\s*return', vf) is not None)
+        else:
+            Dl('enf_pq_exempt_metrics', [])
+            Dl('enf_pq_metrics', [])
+            Db('enf_pq_subvectors_divide_size', False)
 
         b = func_body(sea, 'Validate', 'SearchRequest')
         m = need(r'len\(r\.Sort\)\s*>\s*(\d+)', b, 'SearchRequest.Validate: sort maximum'); Dz('enf_sort_max', m.group(1))
@@ -432,12 +455,28 @@ def main():
         Db('hdl_v2_delete_validates_first', before(v2, 'SemaDBHandlers', 'HandleDeletePoints', ['utils.DecodeValid[DeletePointsRequest]'], 'clusterNode.DeletePoints', 'v2 delete'))
         Db('hdl_v2_search_validates_first', before(v2, 'SemaDBHandlers', 'HandleSearchPoints', ['utils.DecodeValid[models.SearchRequest]', 'req.Query.ValidateSchema(collection.IndexSchema)'], 'clusterNode.SearchPoints', 'v2 search'))
         Db('hdl_v1_create_validates_first', before(v1, 'SemaDBHandlers', 'HandleCreateCollection', ['utils.DecodeValid[CreateCollectionRequest]'], 'clusterNode.CreateCollection', 'v1 create'))
-        Db('hdl_v1_insert_validates_first', before(v1, 'SemaDBHandlers', 'HandleInsertPoints', ['utils.DecodeValid[InsertPointsRequest]', 'len(point.Vector) != int(collection.IndexSchema["vector"].VectorVamana.VectorSize)', 'UserPlan.MaxPointSize'], 'clusterNode.InsertPoints', 'v1 insert'))
-        Db('hdl_v1_update_validates_first', before(v1, 'SemaDBHandlers', 'HandleUpdatePoints', ['utils.DecodeValid[UpdatePointsRequest]', 'len(point.Vector) != int(collection.IndexSchema["vector"].VectorVamana.VectorSize)', 'UserPlan.MaxPointSize'], 'clusterNode.UpdatePoints', 'v1 update'))
+        direct = re.search(r'IndexSchema\["vector"\]\.VectorVamana\.', v1) is not None
+        if direct:
+            dim_pt = 'len(point.Vector) != int(collection.IndexSchema["vector"].VectorVamana.VectorSize)'
+            dim_rq = 'len(req.Vector) != int(collection.IndexSchema["vector"].VectorVamana.VectorSize)'
+            guard = []
+        else:
+            # guarded shape: a helper returns the (possibly nil) parameters and every handler tests for nil
+            need(r'func\s+vectorIndexParams\s*\([^)]*\)\s*\*models\.IndexVectorVamanaParameters\s*\{\s*return\s+\w+\.IndexSchema\["vector"\]\.VectorVamana\s*\}', v1, 'v1 vectorIndexParams helper')
+            dim_pt, dim_rq = 'len(point.Vector) != int(params.VectorSize)', 'len(req.Vector) != int(params.VectorSize)'
+            guard = ['params := vectorIndexParams(collection)', 'if params == nil {']
+            for fn, call in (('HandleGetCollection', 'clusterNode.GetShardsInfo'), ('HandleInsertPoints', 'clusterNode.InsertPoints'),
+                             ('HandleUpdatePoints', 'clusterNode.UpdatePoints'), ('HandleSearchPoints', 'clusterNode.SearchPoints')):
+                body = func_body(v1, fn, 'SemaDBHandlers')
+                m = need(r'params\s*:=\s*vectorIndexParams\(collection\)\s*if\s+params\s*==\s*nil\s*\{\s*utils\.Encode\(w,\s*http\.StatusBadRequest,[^\n]*\)\s*return\s*\}', body, 'v1 %s: nil test of the vector index parameters' % fn)
+                if not (0 <= m.start() < body.find(call)):
+                    raise Shape('v1 %s: nil test after the cluster call' % fn)
+            need(r'params\s*:=\s*vectorIndexParams\(col\)\s*if\s+params\s*==\s*nil\s*\{\s*continue', func_body(v1, 'HandleListCollections', 'SemaDBHandlers'), 'v1 list: skips collections without the vector index')
+        Db('hdl_v1_insert_validates_first', before(v1, 'SemaDBHandlers', 'HandleInsertPoints', ['utils.DecodeValid[InsertPointsRequest]', dim_pt, 'UserPlan.MaxPointSize'] + guard, 'clusterNode.InsertPoints', 'v1 insert'))
+        Db('hdl_v1_update_validates_first', before(v1, 'SemaDBHandlers', 'HandleUpdatePoints', ['utils.DecodeValid[UpdatePointsRequest]', dim_pt, 'UserPlan.MaxPointSize'] + guard, 'clusterNode.UpdatePoints', 'v1 update'))
         Db('hdl_v1_delete_validates_first', before(v1, 'SemaDBHandlers', 'HandleDeletePoints', ['utils.DecodeValid[DeletePointsRequest]'], 'clusterNode.DeletePoints', 'v1 delete'))
-        Db('hdl_v1_search_validates_first', before(v1, 'SemaDBHandlers', 'HandleSearchPoints', ['utils.DecodeValid[SearchPointsRequest]', 'len(req.Vector) != int(collection.IndexSchema["vector"].VectorVamana.VectorSize)'], 'clusterNode.SearchPoints', 'v1 search'))
-        Db('hdl_v1_assumes_vector_vamana', re.search(r'IndexSchema\["vector"\]\.VectorVamana\.', v1) is not None
-           and re.search(r'IndexSchema\["vector"\]\.VectorVamana\s*(==|!=)\s*nil', v1) is None)
+        Db('hdl_v1_search_validates_first', before(v1, 'SemaDBHandlers', 'HandleSearchPoints', ['utils.DecodeValid[SearchPointsRequest]', dim_rq] + guard, 'clusterNode.SearchPoints', 'v1 search'))
+        Db('hdl_v1_assumes_vector_vamana', direct)
 
         # ---- v1 limits
         b = func_body(v1, 'Validate', 'CreateCollectionRequest')
